@@ -46,12 +46,36 @@ LINES_SHORT = [
     ("s-nonmsg", '{"jsonrpc":"2.0"}'),
     ("s-blank", ""),
 ]
+# junk lines whose PREFIX is a complete message (the line as a whole is not JSON), and array lines (batches)
+_A = J + '"id":11,"result":{"a":"\u00e9"}}'
+_B = J + '"method":"notifications/b","params":{"b":1}}'
+LINES_EXTRA = [
+    ("two-msgs", _A + _B),
+    ("two-msgs-space", _B + " " + _A),
+    ("msg+text", _A + " trailing garbage \u00fc"),
+    ("msg+array", _A + "[]"),
+    ("notif+brace", _B + "}"),
+    ("arr-numbers", "[1,2]"),
+    ("arr-empty", "[]"),
+    ("arr-string", '["x"]'),
+    ("arr-one-response", "[" + J + '"id":"in-array","result":{"t":"\u20ac"}}]'),
+    ("arr-nested-empty", "[[ ]]"),
+]
+EXTRA_JUNK = ("two-msgs", "two-msgs-space", "msg+text", "msg+array", "notif+brace")
+LINES_SHORT_EXTRA = [
+    ("s-two-msgs", J + '"id":1,"result":1}' + J + '"method":"n"}'),
+    ("s-msg+text", J + '"id":2,"result":{}} x\u00e9'),
+    ("s-control", J + '"id":3,"result":"\u00e9"}'),   # a valid line, so that the group has more than one outcome
+]
+TABLES = {"long": LINES_LONG, "short": LINES_SHORT, "extra": LINES_EXTRA, "short-extra": LINES_SHORT_EXTRA,
+          "long+extra": LINES_LONG + LINES_EXTRA}
+VERSIONS = [None, "2025-03-26", "2025-06-18"]   # None = set_protocol_version is never called
 SENTINEL = J + '"id":"END","result":{}}'
 TERMS = {"LF": "\n", "CRLF": "\r\n"}
 
 
 def streams(kind: str, maxlen: int) -> List[Dict[str, Any]]:
-    table = LINES_LONG if kind == "long" else LINES_SHORT
+    table = TABLES[kind]
     units = [(n, t, term) for (n, t) in table for term in ("LF", "CRLF")]
     out = []
     for L in range(1, maxlen + 1):
@@ -75,7 +99,7 @@ def stream_bytes(s: Dict[str, Any]):
                 text += J + '"method":"notifications/message","params":{"i":%d}}\n' % i
         text += SENTINEL + "\n"
         return text.encode("utf-8"), names
-    table = LINES_LONG if s["table"] == "long" else LINES_SHORT
+    table = TABLES[s["table"]]
     units = [(n, t, term) for (n, t) in table for term in ("LF", "CRLF")]
     text = ""
     names = []
@@ -87,7 +111,18 @@ def stream_bytes(s: Dict[str, Any]):
     return text.encode("utf-8"), names
 
 
-def reference(data: bytes):
+def batches_accepted(version) -> bool:
+    """Independent of the library: no version negotiated, or a date before 2025-06-18."""
+    if not version:
+        return True
+    y, m, d = version.split("-")
+    return (int(y), int(m), int(d)) < (2025, 6, 18)
+
+
+def reference(data: bytes, version=None):
+    """What must be delivered: every line that is one JSON-RPC message.  An array line is a batch: while batches are
+    accepted its valid members are delivered in order, otherwise nothing of it (the same rule C13 states); in both
+    cases the lines around it are unaffected."""
     exp = []
     for raw in data.split(b"\n")[:-1]:
         if raw.endswith(b"\r"):
@@ -95,6 +130,10 @@ def reference(data: bytes):
         try:
             obj = json.loads(raw.decode("utf-8"))
         except Exception:
+            continue
+        if isinstance(obj, list):
+            if batches_accepted(version):
+                exp.extend(m for m in obj if classify(m)[0] is not None)
             continue
         kind, _ = classify(obj)
         if kind is None:
@@ -133,6 +172,8 @@ def run_one(ctl: explorer.Ctl, cfg: Dict[str, Any]) -> Dict[str, Any]:
         with seams.patched_open_process(lambda cmd, kw: proc) as pp:
             async with StdioClient(seams.stdio_params()) as client:
                 read, write = client.get_streams()
+                if cfg.get("version"):
+                    client.set_protocol_version(cfg["version"])
                 for ch in chunks:
                     proc.stdout.feed(ch)
                     await q.settle()
@@ -155,6 +196,10 @@ def run_one(ctl: explorer.Ctl, cfg: Dict[str, Any]) -> Dict[str, Any]:
     errors = loop.collect_errors()
     loop.abandon()
     obs: Dict[str, Any] = {"status": status, "lines": names, "cuts": cuts}
+    vtag: Dict[str, Any] = {}
+    if "version" in cfg:
+        obs["version"] = cfg["version"]
+        vtag = {"batches": "accepted" if batches_accepted(cfg["version"]) else "rejected"}
     viol = []
     if status != "ok":
         obs["outcome"] = status
@@ -163,7 +208,7 @@ def run_one(ctl: explorer.Ctl, cfg: Dict[str, Any]) -> Dict[str, Any]:
         return obs
     if info.get("spawned") != 1:
         raise core.HarnessError("seam missing: StdioClient did not call anyio.open_process")
-    exp = reference(data)
+    exp = reference(data, cfg.get("version"))
     delivered = [dump_msg(m) for m in got]
     dnotes = [dump_msg(m) for m in notes]
     exp_notes = [m for m in exp if classify(m)[0] == "notification"]
@@ -189,7 +234,7 @@ def run_one(ctl: explorer.Ctl, cfg: Dict[str, Any]) -> Dict[str, Any]:
         missing = [e for e in exp_ids if e not in got_ids]
         if extra and not missing:
             cls = "delivered-non-message"
-            det = {"line": _which_line(extra[0])}
+            det = {"line": _which_line(extra[0], names)}
         elif missing and not extra:
             cls = "lost-message"
             det = {"cut": where_cut()}
@@ -199,8 +244,8 @@ def run_one(ctl: explorer.Ctl, cfg: Dict[str, Any]) -> Dict[str, Any]:
         else:
             cls = "altered-message"
             det = {"cut": where_cut()}
-        viol.append({"sig": {"class": cls, **det},
-                     "msg": f"lines={names} cuts={cuts}: delivered {got_ids} expected {exp_ids}"})
+        viol.append({"sig": {"class": cls, **det, **vtag},
+                     "msg": f"lines={names} cuts={cuts} version={cfg.get('version')}: delivered {got_ids} expected {exp_ids}"})
     # the notification side channel is "offered" (best effort, 100 slots, never back-pressures): when more than 100
     # notifications are pending there, it must hold a prefix of them; otherwise all of them
     if len(exp_notes) > 100:
@@ -208,8 +253,8 @@ def run_one(ctl: explorer.Ctl, cfg: Dict[str, Any]) -> Dict[str, Any]:
     else:
         exp_notes_cmp = exp_notes
     if not (len(dnotes) == len(exp_notes_cmp) and all(strict_eq(norm(a), norm(b)) for a, b in zip(dnotes, exp_notes_cmp))):
-        viol.append({"sig": {"class": "notification-stream-mismatch", "cut": where_cut()},
-                     "msg": f"lines={names} cuts={cuts}: notification stream {dnotes} expected {exp_notes}"})
+        viol.append({"sig": {"class": "notification-stream-mismatch", "cut": where_cut(), **vtag},
+                     "msg": f"lines={names} cuts={cuts} version={cfg.get('version')}: notification stream {dnotes} expected {exp_notes}"})
     if errors:
         viol.append({"sig": {"class": "loop-error"}, "msg": f"{errors[:2]}"})
     obs["outcome"] = f"delivered={len(delivered)}/notes={len(dnotes)}"
@@ -219,13 +264,18 @@ def run_one(ctl: explorer.Ctl, cfg: Dict[str, Any]) -> Dict[str, Any]:
     return obs
 
 
-def _which_line(dumped: str) -> str:
+def _which_line(dumped: str, names=()) -> str:
     try:
         o = json.loads(dumped)
     except Exception:
         return "?"
     if set(o) <= {"jsonrpc"}:
         return "json-object-without-method-id-result-error"
+    fam = {n.split("/")[0] for n in names}
+    if fam & (set(EXTRA_JUNK) | {n for n, _ in LINES_SHORT_EXTRA}):
+        return "complete-message-inside-a-junk-line"
+    if any(f.startswith("arr-") for f in fam):
+        return "array-line"
     return "other"
 
 
@@ -297,6 +347,145 @@ def run_reentry(ctl: explorer.Ctl, cfg: Dict[str, Any]) -> Dict[str, Any]:
     return {"outcome": f"{len(d1)}/{len(d2)}", "violations": viol}
 
 
+# ---------------------------------------------------------------------------
+# two connections alive on one loop: nothing of one stream may influence what the other delivers
+# ---------------------------------------------------------------------------
+RUN_TWO = "vf.checks.c05:run_two"
+
+
+def interleavings(na: int, nb: int) -> List[List[str]]:
+    """Every merge of A's feed events a0..a(na-1) with B's events (enter, b0..b(nb-1)), each side in its own order."""
+    a = [f"a{i}" for i in range(na)]
+    b = ["B-enter"] + [f"b{i}" for i in range(nb)]
+    out = []
+    n = len(a) + len(b)
+    for pos in itertools.combinations(range(n), len(a)):
+        seq, ia, ib = [], 0, 0
+        for k in range(n):
+            if k in pos:
+                seq.append(a[ia]); ia += 1
+            else:
+                seq.append(b[ib]); ib += 1
+        out.append(seq)
+    return out
+
+
+def _chunks(data: bytes, cuts: List[int]) -> List[bytes]:
+    bounds = [0] + list(cuts) + [len(data)]
+    return [data[x:y] for x, y in zip(bounds, bounds[1:])]
+
+
+def _cut_kind(data: bytes, cuts: List[int]) -> str:
+    kinds = set()
+    ip = set(interesting_positions(data))
+    for c in cuts:
+        if c in ip:
+            kinds.add("inside-utf8" if (data[c] & 0xC0) == 0x80 else "inside-crlf")
+        else:
+            kinds.add("plain")
+    return "+".join(sorted(kinds)) or "uncut"
+
+
+def run_two(ctl: explorer.Ctl, cfg: Dict[str, Any]) -> Dict[str, Any]:
+    """Connection A is entered first; B is entered, and both are fed, in the enumerated order."""
+    from chuk_mcp.transports.stdio.stdio_client import StdioClient
+    import anyio
+
+    da, na = stream_bytes(cfg["a"])
+    db, nb = stream_bytes(cfg["b"])
+    ca, cb = _chunks(da, cfg["cuts_a"]), _chunks(db, cfg["cuts_b"])
+    order = interleavings(len(ca), len(cb))[cfg["order"]]
+    loop = new_loop(horizon=30)
+    q = seams.Quiescence(loop)
+    procs = [seams.FakeProcess(), seams.FakeProcess()]
+    got: Dict[str, List[Any]] = {"A": [], "B": []}
+    notes: Dict[str, List[Any]] = {"A": [], "B": []}
+
+    def drain(client, key):
+        read, _ = client.get_streams()
+        for stream, sink in ((read, got[key]), (client.notifications, notes[key])):
+            try:
+                while True:
+                    sink.append(stream.receive_nowait())
+            except (anyio.WouldBlock, anyio.EndOfStream, anyio.ClosedResourceError):
+                pass
+
+    async def main():
+        it = iter(procs)
+        with seams.patched_open_process(lambda cmd, kw: next(it)):
+            async with StdioClient(seams.stdio_params("server-a")) as A:
+                await q.settle()
+                B = None
+                try:
+                    for ev in order:
+                        if ev == "B-enter":
+                            B = StdioClient(seams.stdio_params("server-b"))
+                            await B.__aenter__()
+                        elif ev[0] == "a":
+                            procs[0].stdout.feed(ca[int(ev[1:])])
+                        else:
+                            procs[1].stdout.feed(cb[int(ev[1:])])
+                        await q.settle()
+                    for _ in range(3):
+                        drain(A, "A")
+                        drain(B, "B")
+                        await q.settle()
+                finally:
+                    if B is not None:
+                        await B.__aexit__(None, None, None)
+
+    status, val = loop.run_main(main())
+    errors = loop.collect_errors()
+    loop.abandon()
+    viol: List[dict] = []
+    where = f"A={na} cuts={cfg['cuts_a']} B={nb} cuts={cfg['cuts_b']} order={order}"
+    if status != "ok":
+        return {"outcome": status, "violations": [{"sig": {"class": "did-not-finish", "part": "two-connections"},
+                                                   "msg": f"{where}: {status} {core.clean_repr(val)}"}]}
+    norm = lambda m: {k: v for k, v in m.items() if v is not None}
+    out = {}
+    for key, data, cuts, other_cuts, other_data in (("A", da, cfg["cuts_a"], cfg["cuts_b"], db), ("B", db, cfg["cuts_b"], cfg["cuts_a"], da)):
+        exp = reference(data)
+        d = [dump_msg(m) for m in got[key]]
+        dn = [dump_msg(m) for m in notes[key]]
+        expn = [m for m in exp if classify(m)[0] == "notification"]
+        ok = len(d) == len(exp) and all(strict_eq(norm(x), norm(y)) for x, y in zip(d, exp))
+        okn = len(dn) == len(expn) and all(strict_eq(norm(x), norm(y)) for x, y in zip(dn, expn))
+        out[key] = len(d)
+        if not (ok and okn):
+            viol.append({"sig": {"class": "connection-disturbed-by-another-live-connection",
+                                 "victim": "entered-first" if key == "A" else "entered-second",
+                                 "own_cut": _cut_kind(data, cuts), "other_cut": _cut_kind(other_data, other_cuts)},
+                         "msg": f"{where}: connection {key} delivered {d} (notifications {dn}); alone it delivers {exp}"})
+    if errors:
+        viol.append({"sig": {"class": "loop-error"}, "msg": f"{errors[:2]}"})
+    return {"outcome": f"A={out.get('A')}/B={out.get('B')}", "delivered": {k: [dump_msg(m) for m in v] for k, v in got.items()},
+            "order": order, "violations": viol}
+
+
+def two_connection_configs(tier: str) -> List[Dict[str, Any]]:
+    """Pairs of one-line streams (each followed by the sentinel) x a cut inside every multi-byte character / CRLF of A
+    (thorough: every position of the short lines) x uncut or one such cut of B x every interleaving of the feeds and of B's start."""
+    cfgs = []
+    pick = streams("short", 1) + [u for u in streams("long", 1) if stream_bytes(u)[1][0] in
+                                  ("resp-utf8/LF", "notif/CRLF", "junk-utf8/LF")]
+    for a in pick:
+        da = stream_bytes(a)[0]
+        every = tier == "thorough" and stream_bytes(a)[1][0].startswith("s-")
+        cuts_a = [[c] for c in (range(1, len(da)) if every else interesting_positions(da))]
+        for b in pick:
+            if tier == "thorough" and stream_bytes(b)[1][0].startswith("s-") and stream_bytes(b)[1][0].endswith("/CRLF"):
+                continue      # thorough spends its budget on every cut position of A instead
+            db = stream_bytes(b)[0]
+            ipb = interesting_positions(db)
+            cuts_b = [[]] + [[c] for c in ipb[:3]]
+            for xa in cuts_a:
+                for xb in cuts_b:
+                    for o in range(len(interleavings(len(xa) + 1, len(xb) + 1))):
+                        cfgs.append({"a": a, "b": b, "cuts_a": xa, "cuts_b": xb, "order": o})
+    return cfgs
+
+
 def configs_for(tier: str):
     groups = {}
     # (1) every single cut position of every stream of <= 2 long lines
@@ -344,6 +533,43 @@ def configs_for(tier: str):
                 seen.add(key)
                 g.append({"stream": s, "cuts": list(key)})
     groups["pair-cuts-one-interesting"] = g
+    # (4) one line of every kind - the alphabet above plus junk lines that START with a complete message and array
+    #     lines - at every cut position, for no negotiated version, one that accepts batches and one that rejects them
+    g = []
+    for s in streams("long+extra", 1):
+        n = len(stream_bytes(s)[0])
+        for v in VERSIONS:
+            g.append({"stream": s, "cuts": [], "version": v})
+            for c in range(1, n):
+                g.append({"stream": s, "cuts": [c], "version": v})
+    groups["one-line-every-cut-x-protocol-version"] = g
+    # (5) two lines, at least one of the new kinds: every cut with no version (thorough: every version), uncut and the
+    #     cuts inside characters / CRLF for the two versions
+    g = []
+    n_long = 2 * len(LINES_LONG)
+    two = [s for s in streams("long+extra", 2) if max(s["lines"]) >= n_long]
+    if tier != "thorough":
+        # quick: both lines new, or a new line next to one of three ordinary ones
+        keep = {2 * i + t for i, (nm, _) in enumerate(LINES_LONG) if nm in ("resp-utf8", "notif", "junk") for t in (0,)}
+        two = [s for s in two if all(x >= n_long or x in keep for x in s["lines"])]
+    for s in two:
+        data = stream_bytes(s)[0]
+        every = range(1, len(data))
+        ip = interesting_positions(data)
+        for v in VERSIONS:
+            g.append({"stream": s, "cuts": [], "version": v})
+            # quick: every cut only without version, both lines new and LF-terminated (even unit index = LF)
+            full = (tier == "thorough" and v != "2025-03-26") or (v is None and min(s["lines"]) >= n_long and all(x % 2 == 0 for x in s["lines"]))
+            for c in (every if full else ip):
+                g.append({"stream": s, "cuts": [c], "version": v})
+    groups["two-lines-with-junk-prefix-or-array-x-protocol-version"] = g
+    # (6) every pair of cuts on the short junk lines that start with a complete message
+    g = []
+    for s in streams("short-extra", 1):
+        n = len(stream_bytes(s)[0])
+        for a, b in itertools.combinations(range(1, n), 2):
+            g.append({"stream": s, "cuts": [a, b]})
+    groups["pair-cuts-junk-with-message-prefix"] = g
     if tier == "thorough":
         g = []
         for s in streams("short", 1):
@@ -368,6 +594,10 @@ def run(tier: str, only=None) -> core.Result:
         out = explorer.explore(RUN, cfgs, fidelity=True)
         sched.absorb(res, name, RUN, out, cfgs)
         sched.debug_pass(res, name, RUN, cfgs, every=(97 if len(cfgs) > 5000 else 11))
+    if not only or "two-connections-alive" in only:
+        tcfgs = two_connection_configs(tier)
+        out = explorer.explore(RUN_TWO, tcfgs, fidelity=True)
+        sched.absorb(res, "two-connections-alive", RUN_TWO, out, tcfgs)
     rcfgs = [{"tail": t, "end": e, "cut": c, "legacy": lg} for t in TAILS for e in ("clean", "child-dies") for c in (None, 7)
              for lg in (None, "open", "closed")]
     out = explorer.explore(RUN_RE, rcfgs, fidelity=True)
@@ -382,11 +612,21 @@ def run(tier: str, only=None) -> core.Result:
         "ASCII/2-/3-/4-byte UTF-8, raw U+0085/U+2028/U+2029, escaped newlines; junk; JSON that is not a message; blank) "
         "x {LF, CRLF}, each followed by a sentinel line; cuts = every single position, every pair on short streams, every "
         "pair with a cut inside a multi-byte character or CRLF on long ones (thorough: triples, byte-at-a-time); "
+        "plus junk lines that start with a complete message (two messages on one line, message + text / array / brace) and "
+        "array lines ([1,2], [], [\"x\"], [response], [[ ]]) x {no version, 2025-03-26, 2025-06-18} at every cut of one-line "
+        "streams and of two-line streams (quick: reduced neighbour set, every cut only without version on LF-terminated pairs of "
+        "the new lines, otherwise uncut + cuts inside characters / CRLF); every pair of cuts "
+        "on short junk-with-message-prefix lines; two connections alive on one loop: pairs of one-line streams x a cut of A "
+        "inside every multi-byte character / CRLF (thorough: every position) x B uncut or cut likewise x every interleaving "
+        "of A's feeds with B's start and feeds; "
         "distinct = distinct observation digests"
     )
     res.assumptions = [
         "the scripted process implements the subset of anyio.abc.Process the transport uses (stdout async iteration, stdin send/aclose, terminate/kill/wait)",
         "lines with a wrong or missing 'jsonrpc' member are outside the alphabet (the repository's suite pins them as accepted)",
         "an unterminated final fragment is not a line the child wrote",
+        "array lines: while batches are accepted (no version negotiated or one before 2025-06-18) the valid members are "
+        "delivered in order, otherwise nothing of the array; what is written back to the child is C13's subject and not judged here",
+        "two live connections are entered and left properly nested in one task (A, then B; B left first)",
     ]
     return res
